@@ -156,3 +156,36 @@ SERVER = {'sync': 'Server', 'async': 'AsyncServer'}
 CLIENT = {'sync': 'Client', 'async': 'AsyncClient'}
 MANAGER = {'sync': 'Manager', 'async': 'AsyncManager'}
 PUBSUB = {'sync': 'PubSubManager', 'async': 'AsyncPubSubManager'}
+
+
+def eval_cmp(atom, val):
+    """Evaluate a canonical comparison atom (`<`, `==`, as produced by
+    sym.Run.normal_atom) given val(node) -> number | None."""
+    if not isinstance(atom, ast.Compare) or len(atom.ops) != 1:
+        return None
+    a, b = val(atom.left), val(atom.comparators[0])
+    if a is None or b is None:
+        return None
+    op = atom.ops[0]
+    if isinstance(op, ast.Lt):
+        return a < b
+    if isinstance(op, ast.Eq):
+        return a == b
+    if isinstance(op, ast.Gt):
+        return a > b
+    if isinstance(op, ast.LtE):
+        return a <= b
+    if isinstance(op, ast.GtE):
+        return a >= b
+    return None
+
+
+def num_val(table):
+    """val function for eval_cmp: integer constants and the expressions
+    whose text is a key of `table`."""
+    def val(node):
+        if isinstance(node, ast.Constant) and isinstance(node.value, int) \
+                and not isinstance(node.value, bool):
+            return node.value
+        return table.get(U(node))
+    return val
